@@ -103,6 +103,9 @@ func LoadBackendEnsureUser(env *Env) func(*cobra.Command, []string) error {
 
 		_, err = identity.GetUserIdentity(env.Repo)
 		if err != nil {
+			// the command will not run, and neither will its post-run: release the cache and its lock here
+			_ = env.Backend.Close()
+			env.Backend = nil
 			return err
 		}
 
